@@ -296,6 +296,7 @@ for b in (8, 32):
         reg(f"bank[{base}] storage({b-1}) storage(1) status({b})", "quick", specs=[S("storage", b - 1), S("storage", 1), S("status", b)], busword=b, ordering=ordering)
         reg(f"bank[{base}] storage({b+1}) status({b+1})", "quick", specs=[S("storage", b + 1), S("status", b + 1)], busword=b, ordering=ordering)
         reg(f"bank[{base}] storage({b+1},atomic) storage({b})", "quick", specs=[S("storage", b + 1, atomic=True), S("storage", b)], busword=b, ordering=ordering)
+        reg(f"bank[{base}] storage({b+1},atomic,wfd) storage(2)", "quick", specs=[S("storage", b + 1, atomic=True, wfd=True), S("storage", 2)], busword=b, ordering=ordering)
         reg(f"bank[{base},addr3,page0x400] storage({b},wfd) status({b},rw) raw(3)", "quick",
             specs=[S("storage", b, wfd=True), S("status", b, read_only=False), S("raw", 3)], busword=b, ordering=ordering, address=3, paging=0x400)
         if b == 8:
